@@ -234,6 +234,7 @@ def _chunk(payload):
     out = Outcome()
     if part == 0:
         unhashable(out)
+        two_functions(out)
     batch = []
 
     def flush():
@@ -311,6 +312,56 @@ def unhashable(out):
                                              '(expected TypeError before any state change)',
                                      'signature': {'kind': 'unhashable'}})
     out.count('unhashable-probes', 6)
+
+
+def two_functions_case(form):
+    """Two different functions decorated without a mapping of their own choice - bare, by two factory calls, or by ONE
+    factory result applied to both - and called with equal arguments: each must get what *it* computes."""
+    from aiuti.asyncio import threadsafe_async_cache
+    inv = []
+
+    async def square(x, k=0):
+        inv.append(('square', x, k))
+        return ('square', x * x + k)
+
+    async def double(x, k=0):
+        inv.append(('double', x, k))
+        return ('double', 2 * x + k)
+    if form == 'bare':
+        sq, db = threadsafe_async_cache(square), threadsafe_async_cache(double)
+    elif form == 'factory-each':
+        sq, db = threadsafe_async_cache()(square), threadsafe_async_cache()(double)
+    else:
+        deco = threadsafe_async_cache()
+        sq, db = deco(square), deco(double)
+    calls = [(sq, 'square', 3, {}), (db, 'double', 3, {}), (db, 'double', 4, {'k': 1}), (sq, 'square', 4, {'k': 1}),
+             (sq, 'square', 3, {}), (db, 'double', 3, {})]
+    got = []
+    loop = asyncio.new_event_loop()
+    try:
+        for g, _, x, kw in calls:
+            try:
+                got.append(loop.run_until_complete(g(x, **kw)))
+            except BaseException as e:  # noqa
+                got.append(('raised', repr(e)))
+    finally:
+        loop.close()
+    want = [(n, (x * x if n == 'square' else 2 * x) + kw.get('k', 0)) for _, n, x, kw in calls]
+    if got != want:
+        return f'two functions decorated through form {form!r} and called with equal arguments: results {got!r}, ' \
+               f'each function computes {want!r} (invocations {inv!r})'
+    if sorted(inv) != sorted(set(inv)) or len(inv) != 4:
+        return f'two functions decorated through form {form!r}: invocations {inv!r}, expected one per function and key (4)'
+    return None
+
+
+def two_functions(out):
+    for form in ('bare', 'factory-each', 'factory-shared'):
+        out.evaluations += 1
+        msg = two_functions_case(form)
+        if msg:
+            out.concrete.append({'case': {'twofunc': form}, 'what': msg, 'signature': {'kind': 'two-functions', 'form': form}})
+    out.count('two-function-probes', 3)
 
 
 # ------------------------------------------------------------------ the mapping is the only store, also after concurrent use
@@ -435,6 +486,9 @@ def search(ctx, outcome):
 
 def replay(ctx, payload):
     case = payload.get('case') or (payload.get('first_differing_case') or {}).get('case')
+    if case.get('twofunc'):
+        msg = two_functions_case(case['twofunc'])
+        return {'case': case, 'monitor': msg, 'fails': bool(msg)}
     if case.get('conc'):
         log, bad = run_conc(case)
         return {'case': case, 'tail': log, 'monitor': bad, 'fails': bool(bad)}
